@@ -2,7 +2,7 @@
    answers (control logic against ANY text), or the concrete XML + message model *)
 From Coq Require Import List NArith ZArith Bool String.
 Import ListNotations.
-From Indi Require Import Base.Sx Buffer.Model Buffer.Junk Msg.Registry Msg.Equality Msg.Model Msg.Run Xml.Lex
+From Indi Require Import Base.Sx Buffer.Model Buffer.Junk Buffer.Framing Msg.Registry Msg.Equality Msg.Model Msg.Run Xml.Lex
   Generated.RegistryData.
 
 Definition table := list (str * (N * Z)).    (* prefix -> (code 0 not xml / 1 invalid / 2 message, id) *)
@@ -69,11 +69,26 @@ Definition run_corrupt (x : sx) : sx :=
   | _ => bad_input
   end.
 
-(* ("table" ...) | ("concrete" ...) | ("corrupt" ...) *)
+(* (thr? m) -> does m pass every clause of Framing.spelling for the concrete parser? *)
+Definition run_spellcheck (x : sx) : sx :=
+  match x with
+  | SL [thr; SA m] =>
+      match as_opt as_nat thr with
+      | Some thr => match spell_check msg concrete_parse (rbuffer_tags live_registry) thr m with
+                    | Some M => SL [enc_msg M]
+                    | None => SL []
+                    end
+      | None => bad_input
+      end
+  | _ => bad_input
+  end.
+
+(* ("table" ...) | ("concrete" ...) | ("corrupt" ...) | ("spell" ...) *)
 Definition run_buffer (x : sx) : sx :=
   match x with
   | SL [t; a] => if is_tag "table" t then run_buffer_table a
                  else if is_tag "concrete" t then run_buffer_concrete a
-                 else if is_tag "corrupt" t then run_corrupt a else bad_input
+                 else if is_tag "corrupt" t then run_corrupt a
+                 else if is_tag "spell" t then run_spellcheck a else bad_input
   | _ => bad_input
   end.
